@@ -33,8 +33,8 @@ CHECKS = {
         ref="5 C05"),
     "C06": dict(
         technique="grammar-based generation of PlantUML text from a random component relation (exhaustive two-component form matrix + Hypothesis), round-trip oracle; plus a coverage-guided arm (atheris/libFuzzer driving the same strategy and oracle through Hypothesis fuzz_one_input, pytestarch instrumented)",
-        text="Diagrams are rendered from a known relation in every documented declaration/reference/arrow form and parsed back; the parsed components and dependencies must equal the relation; blanks / tabs around lines, arrows with and without blanks, identifiers with combining marks are part of the space; sequences of diagrams are parsed one after the other (an alias token of one is a component name of the next).",
-        note="Documented subset only (one block per file, aliases on all three declaration forms; no comments, arrow labels or package blocks).",
+        text="Diagrams are rendered from a known relation in every documented declaration/reference/arrow form and parsed back; the parsed components and dependencies must equal the relation; blanks / tabs around lines, arrows with and without blanks, identifiers with combining marks are part of the space; sequences of diagrams are parsed one after the other (an alias token of one is a component name of the next); a quarter of the random diagrams may draw an arrow from a component to itself; a fixed family of diagrams with long component names (24-64 digits / non-ASCII letters) is parsed in a child interpreter under a 30 s limit (a parse still running then is a violation).",
+        note="Documented subset only (one block per file, aliases on all three declaration forms; no comments, arrow labels or package blocks). The long-name part is the one place where elapsed time is a signal (limit four orders of magnitude above the normal parse time).",
         ref="5 C06"),
     "C07": dict(
         technique="exhaustive component/arrow/import enumeration + Hypothesis against the conformance formula; aggregated message compared with the union of per-rule reference reports; naming options compared differentially",
@@ -68,12 +68,12 @@ CHECKS = {
         ref="5 C13"),
     "C16": dict(
         technique="exhaustive call-sequence exploration (depth-first, cut at the first rejected call) against LayerBuilderModel / LayerRuleModel + Hypothesis longer sequences",
-        text="Accept/reject per call must agree with the model (no claim about the call that names a layer without modules), and accepted definitions must expose exactly the supplied layers and modules.",
+        text="Accept/reject per call must agree with the model (no claim about the call that names a layer without modules, nor about a call that supplies a module next to / after its own parent or sub module - if accepted, both are listed and both count as assigned), and accepted definitions must expose exactly the supplied layers and modules.",
         note="Behaviour after a rejected call is not judged.",
         ref="5 C16"),
     "C17": dict(
         technique="exhaustive alias subsets on a prefix-colliding tree + Hypothesis, label map compared with a component-wise reference at the intercepted drawing call",
-        text="All alias maps on two fixed trees (one in which the aliased name recurs further down) x spacing, repeated visualize calls on one architecture with other alias texts, plus random trees/alias maps/kwargs incl. template-like alias texts; labels, kwargs pass-through, spacing handling and unknown-alias rejection are checked.",
+        text="All alias maps on two fixed trees (one in which the aliased name recurs further down) x spacing, repeated visualize calls on one architecture with other alias texts, plus random trees/alias maps/kwargs incl. template-like alias texts and alias texts that are module names themselves (a module's own full name, its last component, another module's name); labels, kwargs pass-through, spacing handling and unknown-alias rejection are checked.",
         note="draw_networkx replaced by a recorder from the harness side.",
         ref="5 C17"),
     "C10": dict(
@@ -88,7 +88,7 @@ CHECKS = {
         ref="5 C14"),
     "C15": dict(
         technique="Hypothesis rule-based state machine (every step recorded as data, replayable) over shared evaluables with a fresh-evaluation oracle and a snapshot invariant; permuted iterdir/exclusion order; 8-interpreter PYTHONHASHSEED differential",
-        text="Histories of up to 40 evaluations (new, re-applied to either architecture, re-targeted diagram rules, permuted lists) must leave the evaluables unchanged and agree with fresh evaluations (verdict, message, and the text of a lookup error); scans must not depend on directory order; outputs must be identical under 8 hash seeds.",
+        text="Histories of up to 40 evaluations (new, re-applied to either architecture, re-targeted diagram rules, permuted lists) must leave the evaluables unchanged and agree with fresh evaluations (verdict, message, and the text of a lookup error); scans must not depend on directory order; outputs (incl. the text of the error a layer definition with repeated modules ends in) must be identical under 8 hash seeds.",
         note="Hash seeds and directory orders are sampled, not exhausted.",
         ref="5 C15"),
 }
